@@ -5,6 +5,7 @@ import AcryoVerif.Model.Wedge
 import AcryoVerif.Model.Lowpass
 import AcryoVerif.Gen.Align
 import AcryoVerif.Model.Landscape
+import AcryoVerif.Model.Split
 
 /-! Dispatch of hand-written model operations for the line-protocol driver. -/
 namespace Model
@@ -119,6 +120,13 @@ def opScore (a : Array Rat) : String :=
   let img1 : Img := ⟨n0, n1, n2, a.extract (4 + v) (4 + 2 * v)⟩
   Canon.canon (scorePair (a[0]! ≠ 0) img0 img1)
 
+/-- `split n draw...` → the two masks as bit strings. -/
+def opSplit (a : Array Rat) : String :=
+  let n := (i a 0).toNat
+  let stream := (a.toList.drop 1).map fun q => q.floor.toNat
+  let d := usedDraws n stream
+  bits (mask0 n d) ++ " " ++ bits (mask1 n d)
+
 def dispatch (name : String) (a : Array Rat) : Option String :=
   match name with
   | "prepAffine" => some (flat (opPrepAffine a))
@@ -142,6 +150,7 @@ def dispatch (name : String) (a : Array Rat) : Option String :=
   | "znccShape" => some (opZnccShape a)
   | "landscape" => some (opLandscape a)
   | "score" => some (opScore a)
+  | "split" => some (opSplit a)
   | _ => none
 
 end Model
